@@ -271,7 +271,9 @@ def models(draw, max_bodies=5, min_bodies=1, joint_types=JOINT_TYPES, geom_types
           njn = draw(st.integers(1, max_joints))
           for k in range(njn):
             hasball = first == 'ball' or any(t == 'ball' for (_, t, bb) in jnts if bb == bname)
-            rest = [t for t in allowed if t != 'free' and not (hasball and t in ('ball', 'hinge'))]
+            # a ball joint only as the first joint of a body, and no hinge after a ball: 4 rotational dofs about one
+            # point make the inertia matrix singular (Newton then raises 'rank-deficient Hessian')
+            rest = [t for t in allowed if t not in ('free', 'ball') and not (hasball and t == 'hinge')]
             if k > 0 and not rest:
               break
             jt = first if k == 0 else draw(st.sampled_from(rest))
